@@ -116,10 +116,24 @@ Fixpoint pieces_of (datas : list bytes) (cuts : list cutspec) : list bytes :=
 Definition run_one (cfg : fcfg) (ok : bool) (datas : list bytes) (cuts : list cutspec) : outcome * list N :=
   feed_obs cfg ok init_state (pieces_of datas cuts) [].
 
+(* While the connection is open, what the upstream socket received is exactly what was queued.  When the
+   handler tears the connection down (or an exception escapes) in the very call that queued something, the
+   upstream connection is closed without another flush: then what the socket received is a PREFIX of what was
+   queued, and only the last count may fall short (write-side delivery at teardown is C07's business). *)
+Fixpoint counts_upto (model impl : list N) : bool :=
+  match model, impl with
+  | [], [] => true
+  | [m], [i] => i <=? m
+  | m :: mt, i :: it => (m =? i) && counts_upto mt it
+  | _, _ => false
+  end.
+
 Definition check_run (cfg : fcfg) (ok : bool) (datas : list bytes) (eu : bytes) (rn : run) : bool :=
   let '(cuts, eo, ec) := rn in
   let '(o, counts) := run_one cfg ok datas cuts in
-  (outcome_code o =? eo) && bytes_eqb (upstream_bytes (outcome_state o)) eu && list_N_eqb counts ec.
+  (outcome_code o =? eo) &&
+  (if eo =? 0 then bytes_eqb (upstream_bytes (outcome_state o)) eu && list_N_eqb counts ec
+   else is_prefix eu (upstream_bytes (outcome_state o)) && counts_upto counts ec).
 
 Definition check_case (c : fcase) : bool :=
   match c with
